@@ -91,6 +91,7 @@ Definition tstepMI (M I : Z) (s : state) (t : nat) (p : pc) (a : act) : option (
       else if (magic s =? M)%Z then Some (s, PDone)
       else Some (s, PAbort)
   | PDone, Use st q => Some (do_use s st q, PDone)
+  | PDone, Again => Some (s, PStart)
   | _, _ => None
   end.
 
@@ -99,11 +100,11 @@ Lemma tstep_MI sh s t p a : shape_ok sh = true ->
 Proof.
   intros H. apply shape_ok_inv in H.
   destruct H as (_ & _ & Hf & Hg & Hc & Hn & Him & Hfi & Hsp & Hord).
-  destruct p as [|g|k half lm li| | |]; destruct a as [b|st q]; cbn [tstep tstepMI]; try reflexivity.
+  destruct p as [|g|k half lm li| | |]; destruct a as [b|st q|]; cbn [tstep tstepMI]; try reflexivity;
+    try (destruct k as [|[|[|[|[|k]]]]]; reflexivity).
   - rewrite Hf, Hg, Hc, Hn. reflexivity.
   - rewrite Hord. destruct k as [|[|[|[|[|k]]]]]; cbn; rewrite ?Him, ?Hfi; try reflexivity.
     destruct k; reflexivity.
-  - destruct k as [|[|[|[|[|k]]]]]; reflexivity.
   - rewrite Hsp. reflexivity.
 Qed.
 
@@ -178,7 +179,7 @@ Section Inv.
   Proof.
     intros HmM (Hmg & Hin & Hrok & Hcl & Hbu & Hun & Hall) Hp Ht.
     assert (HT : T_already p) by (eapply Hall; exact Hp).
-    destruct HT as [Hq|[Hq|Hq]]; subst p; destruct a as [b|st q]; cbn [tstepMI] in Ht; try discriminate.
+    destruct HT as [Hq|[Hq|Hq]]; subst p; destruct a as [b|st q|]; cbn [tstepMI] in Ht; try discriminate.
     - inv_st Ht s1 p'. unfold Already. cbn. repeat split; try assumption; try (apply Hun; assumption).
       eapply all_pcs_upd; [exact Hp | exact Hall |]. right. left. rewrite Hmg. reflexivity.
     - revert Ht. zeq. intros Ht. inv_st Ht s1 p'. unfold Already. cbn.
@@ -188,6 +189,8 @@ Section Inv.
       repeat split; try assumption; try discriminate.
       + rewrite Hbu. reflexivity.
       + eapply all_pcs_upd; [exact Hp | exact Hall |]. right. right. reflexivity.
+    - inv_st Ht s1 p'. unfold Already. cbn. repeat split; try assumption; try (apply Hun; assumption).
+      eapply all_pcs_upd; [exact Hp | exact Hall |]. left. reflexivity.
   Qed.
 
   (** ** phase A: nobody has won yet *)
@@ -197,7 +200,7 @@ Section Inv.
   Proof.
     intros HmM (Hmg & Hin & Hus & Hcl & Hbu & Hall) Hp Ht.
     assert (HT : T_A p) by (eapply Hall; exact Hp).
-    destruct HT as [Hq|Hq]; subst p; destruct a as [b|st q]; cbn [tstepMI] in Ht; try discriminate.
+    destruct HT as [Hq|Hq]; subst p; destruct a as [b|st q|]; cbn [tstepMI] in Ht; try discriminate.
     - inv_st Ht s1 p'. left. unfold PhA. cbn. repeat split; try assumption.
       eapply all_pcs_upd; [exact Hp | exact Hall |]. right. rewrite Hmg. reflexivity.
     - revert Ht. rewrite Hmg. zeq. cbn [negb]. intros Ht. inv_st Ht s1 p'.
@@ -222,7 +225,7 @@ Section Inv.
       { intros s2 x u q Hs2 Hu Hq. rewrite Hs2 in Hq. rewrite nth_error_upd_other in Hq by congruence.
         eapply Hoth; eassumption. }
       destruct HW as [(h & lm & li & Hq & Hi)|[(h & lm & Hq & Hi)|[(Hq & Hi)|[(Hq & Hi)|[(Hq & Hi & Hr)|[(h & Hq & Hi & Hr)|(h & Hq & Hi & Hr)]]]]]];
-        subst p; destruct a as [b|st q]; cbn [tstepMI] in Ht; try discriminate.
+        subst p; destruct a as [b|st q|]; cbn [tstepMI] in Ht; try discriminate.
       + inv_st Ht s1 p'. left. unfold PhB. cbn. repeat split; try assumption.
         exists w, (PWin 1 None M true). split; [eapply nth_error_upd_same; exact Hw|]. split.
         * right. left. exists None, M. auto.
@@ -275,7 +278,7 @@ Section Inv.
         intros u q Hu Hq. destruct (Nat.eq_dec t u) as [E|E].
         - subst u. rewrite (nth_error_upd_same _ _ _ _ Hp) in Hq. inv_some Hq. exact Hx.
         - rewrite nth_error_upd_other in Hq by exact E. eapply Hoth; eassumption. }
-      destruct HT as [Hq|[Hq|[Hq|Hq]]]; subst p; destruct a as [b|st q]; cbn [tstepMI] in Ht; try discriminate.
+      destruct HT as [Hq|[Hq|[Hq|Hq]]]; subst p; destruct a as [b|st q|]; cbn [tstepMI] in Ht; try discriminate.
       + inv_st Ht s1 p'. left. apply Hkeep. right. right. left. rewrite Hmg. reflexivity.
       + revert Ht. rewrite Hmg. zeq. cbn [negb]. intros Ht. inv_st Ht s1 p'.
         left. apply Hkeep. right. right. right. reflexivity.
@@ -296,7 +299,7 @@ Section Inv.
     { intros x Hx. unfold PhC. cbn. repeat split; try assumption.
       eapply all_pcs_upd; [exact Hp | exact Hall | exact Hx]. }
     destruct HT as [Hq|[Hq|[Hq|[Hq|[Hq|[Hq|(k & h & lm & li & Hq & Hk)]]]]]]; subst p;
-      destruct a as [b|st q]; cbn [tstepMI] in Ht; try discriminate.
+      destruct a as [b|st q|]; cbn [tstepMI] in Ht; try discriminate.
     - inv_st Ht s1 p'. apply Hkeep. do 3 right. left. rewrite Hmg. reflexivity.
     - revert Ht. rewrite Hmg. zeq. cbn [negb]. intros Ht. inv_st Ht s1 p'. apply Hkeep. do 4 right. left. reflexivity.
     - revert Ht. zeq. cbn [negb]. intros Ht. inv_st Ht s1 p'. apply Hkeep. do 4 right. left. reflexivity.
@@ -304,7 +307,9 @@ Section Inv.
     - revert Ht. rewrite Hmg. zeq. intros Ht. inv_st Ht s1 p'. apply Hkeep. do 5 right. left. reflexivity.
     - inv_st Ht s1 p'. unfold PhC. cbn. rewrite Hrok, Hbu. cbn. repeat split; try assumption.
       eapply all_pcs_upd; [exact Hp | exact Hall |]. do 5 right. left. reflexivity.
+    - inv_st Ht s1 p'. apply Hkeep. left. reflexivity.
     - destruct k as [|[|[|[|[|k]]]]]; try lia. inv_st Ht s1 p'. apply Hkeep. do 5 right. left. reflexivity.
+    - destruct k as [|[|[|[|[|k]]]]]; try lia; discriminate.
     - destruct k as [|[|[|[|[|k]]]]]; try lia; discriminate.
   Qed.
 
